@@ -17,6 +17,12 @@ CHECKS["C07"] = dict(engine="govm", technique="stateless model checking: every p
 CHECKS["C08"] = dict(engine="govm", technique="stateless model checking: deviation-bounded exhaustive schedule exploration (3 default policies) x scripted-peer behaviours of the real client call path over an in-memory network with virtual time",
              text="2-3 concurrent TarsInvoke callers on one proxy against a scripted server that answers in every order, duplicates replies, injects unknown-id / push / one-way packets and places a reply before/at/after the deadline; all schedules within 1 deviation un-pruned and 2-3 deviations with fingerprint pruning, from three default scheduling policies; plus all interleavings (unbounded) of 2-3 concurrent request-id generators around the wrap-around values.",
              note="Virtual clock (exact deadlines); scripted server uses an independent mini-codec; pruned runs assume data-race freedom.", ref="§5 C08")
+CHECKS["C17"] = dict(engine="enum", technique="bounded-exhaustive enumeration of configuration documents (all line sequences / byte strings up to a bound) against an independent line-based reference reader",
+             text="Every well-nested document of <=7/8 lines over the line alphabet, every framing variant, every sequence of line forms, every malformed sequence of <=5 lines and every byte string of <=4/6 bytes over 12 byte classes is parsed by the real conf package and compared node by node (keys, values, domain/key/line listings, typed getters) with a reference reader; malformed input must give an error or a complete representation.",
+             note="Reference reader is the specification as the property states it (trim, first '=', '#', later duplicate wins); XML-specific corner cases (entities, namespaces, attributes) are not judged.", ref="§5 C17")
+CHECKS["C18"] = dict(engine="enum", technique="bounded-exhaustive enumeration of endpoint descriptions (full product of option menus, all orderings of <=4/5 options, spacings, prefixes, all short strings) against a reference parser and the registry round trip",
+             text="Every endpoint of the option-menu product in canonical and reversed order, every ordered selection of <=4 options x spacings, every prefix, every string of <=5/6 symbols over a 12-symbol alphabet, every ':'-joined address list through the real newEndpointManager, and the Endpoint->EndpointF->Endpoint round trip over the field-menu product; fields, defaults, weight normalisation, key equality, no panic.",
+             note="Reference parser written from the documented option syntax; behaviours of the flag package outside that grammar (-h=x, base prefixes) are not judged.", ref="§5 C18")
 NOT_YET = {}
 ALL = ["C%02d" % i for i in range(1, 21)]
 
